@@ -96,7 +96,7 @@ func (e *env) refObs(h uint32, obs []*chainx.Obs) (*chainx.Obs, error) {
 // recoverAndCheck opens a node on batches[:i] and checks the crash-consistency
 // oracle. maxHeight is the last height accepted before the crash. If wantHeight
 // >= 0 the recovered height must be exactly that (reset scenarios).
-func (e *env) recoverAndCheck(batches []chainx.Batch, i int, maxHeight uint32, wantHeight int, blocks [][]byte, obs []*chainx.Obs, finalDump []string) (string, []string) {
+func (e *env) recoverAndCheck(batches []chainx.Batch, i int, maxHeight uint32, wantHeight int, blocks [][]byte, obs []*chainx.Obs, finalDump []string, chk ...*resetChk) (string, []string) {
 	st := chainx.NewRecStore(chainx.ApplyBatches(batches, i))
 	n, err := chainx.New(e.opts(st))
 	if err != nil {
@@ -127,6 +127,13 @@ func (e *env) recoverAndCheck(batches []chainx.Batch, i int, maxHeight uint32, w
 	}
 	if d := want.Diff(got); len(d) != 0 {
 		return fmt.Sprintf("recovered state at height %d differs from an uninterrupted node", h), d
+	}
+	if len(chk) > 0 && wantHeight >= 0 {
+		// resumed (or completed) reset: the node answers like one that only synchronised to the target
+		rxProbes.Inc()
+		if d := chk[0].asSynced(n); len(d) != 0 {
+			return "resumed reset answers differ from a node that only synchronised to the target", d
+		}
 	}
 	if finalDump != nil {
 		// resumed reset/jump must end in the same database content as an uninterrupted one
@@ -308,13 +315,26 @@ func (e *env) runPersist(h []int, mask uint64, scen string, inblock ...uint64) (
 // non-running Blockchain and checks every crash point of the reset.
 func (e *env) runReset(h []int, to uint32, gcFirst bool) (crashes int, rec *caseRec) {
 	blocks, obs := e.sc.Blocks(h)
+	ix, ixErr := e.index(blocks)
+	noop := int(to) == len(blocks) && e.ahead == 0
 	mk := func(i, n int, what string, diff []string) *caseRec {
 		scen := "reset"
 		if e.gc {
 			scen = "reset-prune" // the same reset on a RemoveUntraceableBlocks node
 		}
+		if noop {
+			scen = "reset-noop" // Reset(current height): completes without anything to do
+		}
 		return &caseRec{Scenario: scen, Family: e.sc.Fam.Name, Pad: e.sc.Pad, History: e.sc.Names(h), ResetTo: to, GCFirst: gcFirst, Ahead: e.ahead, Prune: e.gc, Batches: n, Crash: i, What: what, Diff: diff}
 	}
+	if ixErr != nil {
+		return 0, mk(-1, 0, "harness: "+ixErr.Error(), nil)
+	}
+	ref := e.synced(h, blocks, ix)
+	if ref.err != nil {
+		return 0, mk(-1, 0, "harness: reference node: "+ref.err.Error(), nil)
+	}
+	chk := &resetChk{ref: ref, ix: ix, to: to}
 	rs := chainx.NewRecStore(storage.NewMemoryStore())
 	n, err := chainx.New(e.opts(rs))
 	if err != nil {
@@ -397,12 +417,35 @@ func (e *env) runReset(h []int, to uint32, gcFirst bool) (crashes int, rec *case
 	if err != nil {
 		return 0, mk(-1, 0, "reopen for reset: "+err.Error(), nil)
 	}
+	if strings.HasPrefix(e.sc.Tpls[0].Name, "xfer2x") {
+		rxXferCuts.Add(fmt.Sprintf("%d->%d", ref.logLen[len(blocks)], ref.logLen[to]))
+	}
+	pg, str := pagesBefore(rs, to)
+	rxPagesBefore.Add(pg)
+	rxStraddle.Add(str)
+	// warm the instance's look-up caches (header-hash pages) with the chain that is about to be cut
+	for i := uint32(0); i <= uint32(len(blocks)); i++ {
+		m.BC.GetHeaderHash(i)
+	}
 	if err := m.BC.Reset(to); err != nil {
 		return 0, mk(-1, 0, fmt.Sprintf("Reset(%d) failed: %v", to, err), nil)
 	}
 	rs.BeforePut, rs.BeforeGC, rs.AfterGC, rs.OnBatch = nil, nil, nil, nil
 	batches := rs.Batches()
 	finalDump := chainx.Dump(rs)
+	// completed reset, the instance that ran it (no restart): answers and database of a node that
+	// only ever synchronised to `to`
+	rxProbes.Inc()
+	if d := chk.asSynced(m); len(d) != 0 {
+		if noop && onlySyncPoint(d) {
+			return 0, mk(0, 0, "no-op Reset leaves its state sync point behind (GetTokenLastUpdated reports it)", d)
+		}
+		return 0, mk(0, 0, "same instance after Reset answers differently from a node that only synchronised to the target", d)
+	}
+	rxDBs.Inc()
+	if d := dbAsSynced(ref.dumps[to], chainx.DumpMap(rs), e.gc); len(d) != 0 {
+		return 0, mk(0, 0, "database after Reset differs from a node that only synchronised to the target", d)
+	}
 	// completed reset: indistinguishable from a node that only synchronised to `to`
 	var known *caseRec
 	for i := base; i <= len(batches); i++ {
@@ -416,7 +459,7 @@ func (e *env) runReset(h []int, to uint32, gcFirst bool) (crashes int, rec *case
 			fd = finalDump
 		}
 		crashes++
-		if what, diff := e.recoverAndCheck(batches, i, maxH, want, blocks, obs, fd); what != "" {
+		if what, diff := e.recoverAndCheck(batches, i, maxH, want, blocks, obs, fd, chk); what != "" {
 			if e.gc && strings.Contains(what, "rejects block") && strings.Contains(what, "apply MPT changes") {
 				// open finding (reference counters are not rolled back by a reset of a pruning node): the
 				// restart, the state at the target and the database content of THIS crash point were fine;
@@ -428,6 +471,11 @@ func (e *env) runReset(h []int, to uint32, gcFirst bool) (crashes int, rec *case
 			}
 			return crashes, mk(i-base, len(batches)-base, what, diff)
 		}
+	}
+	if rec := e.resetContinue(m, rs, chk, to, gcFirst, blocks, obs, func(what string, diff []string) *caseRec {
+		return mk(0, 0, what, diff)
+	}); rec != nil {
+		return crashes, rec
 	}
 	return crashes, known
 }
@@ -552,6 +600,19 @@ func TestCheck(t *testing.T) {
 			plans = append(plans, plan{g, "gc"})
 		}
 	}
+	var xferNames []string
+	if os.Getenv("C02_PAGES") == "" && os.Getenv("C02_RESETBATCH") == "" {
+		// reset-xfer: resets cutting a NEP-17 transfer log at / around a log batch boundary (ext_reset_test.go)
+		xe, xn, err := xferEnvs(r, chainx.Families()[0])
+		if err != nil {
+			fmt.Println("CHECK-ERROR: reset-xfer:", err)
+			os.Exit(3)
+		}
+		xferNames = xn
+		for _, e := range xe {
+			plans = append(plans, plan{e, "reset"})
+		}
+	}
 	if os.Getenv("C02_PAGES") == "" {
 		// epoch plan: a committee-changing block followed by a tail of empty blocks that crosses the
 		// next committee epoch boundary (multi family: 6 blocks), the node dying right after a single
@@ -637,17 +698,24 @@ func TestCheck(t *testing.T) {
 				masks = append(masks, 3<<uint(k)) // two consecutive ones
 			}
 		}
-		for _, h := range p.e.hs {
+		for hi, h := range p.e.hs {
 			switch p.kind {
 			case "reset", "reset-pages":
-				for to := uint32(1); to <= uint32(total-p.e.ahead); to++ {
-					if to == uint32(total) {
-						break // nothing to reset (with headers ahead the tip itself is a target: the headers go)
+				for to := uint32(0); to <= uint32(total-p.e.ahead); to++ {
+					noop := to == uint32(total) // nothing to reset (with headers ahead the tip itself is a real target: the headers go)
+					if noop && !r.Thorough() && hi != 0 {
+						break // quick: the no-op reset on the first history of the plan only
 					}
-					if !r.Thorough() && to < uint32(nPre)-1 && os.Getenv("C02_RESETBATCH") == "" && p.kind == "reset" {
+					if to == 0 && !r.Thorough() && hi != 0 {
+						continue // quick: back to the genesis block from the first history of the plan only
+					}
+					if !r.Thorough() && to != 0 && to < uint32(nPre)-1 && os.Getenv("C02_RESETBATCH") == "" && p.kind == "reset" {
 						continue // quick: reset targets in and just below the history part
 					}
 					for _, gf := range []bool{false, true} {
+						if noop && gf {
+							continue // no batches, no race to order
+						}
 						jobs = append(jobs, job{p: p, h: h, to: to, gcFirst: gf})
 					}
 				}
@@ -697,9 +765,9 @@ func TestCheck(t *testing.T) {
 		runs.Inc()
 		sets.Add(fmt.Sprintf("%s/%s/%v/%x/%x/%d/%v/a%d/%v", j.p.kind, j.p.e.sc.Fam.Name, j.h, j.mask, j.inblock, j.to, j.gcFirst, j.p.e.ahead, j.p.e.gc))
 		kinds.Add(fmt.Sprintf("%s/ahead%d/gc=%v", j.p.kind, j.p.e.ahead, j.p.e.gc))
-		if rec != nil && rec.Scenario == "reset-prune" {
+		if rec != nil && (rec.Scenario == "reset-prune" || rec.Scenario == "reset-noop") {
 			// reported after the loop: one violation per failure class, first case in plan order
-			r.Outcome(j.p.kind + "-prune:violation")
+			r.Outcome(j.p.kind + strings.TrimPrefix(rec.Scenario, "reset") + ":violation")
 			late[i] = rec
 		} else if rec != nil {
 			r.Outcome(j.p.kind + ":violation")
@@ -756,6 +824,8 @@ func TestCheck(t *testing.T) {
 		}
 		cov["gcrun_alphabet"] = fmt.Sprintf("MaxTraceableBlocks %v x GarbageCollectionPeriod x flush cadence (see gcPlan) x histories %v of %d blocks, + block-between-flush-and-GC variants, + second-level crash cases", mtbs, hists, hl)
 	}
+	resetExtCoverage(cov)
+	cov["resetx_oracles"] = "every reset case (targets 0..tip-1, + the no-op Reset(tip) once per plan): reference node of the same configuration fed blocks 1..h only; (1) question list (heights, current hashes, GetHeaderHash 0..tip+2, HasBlock/GetHeader/GetBlock/GetTransaction/GetAppExecResults by hash for every height of the history, GetStateRoot 0..tip+1, NEP-17 logs + GetTokenLastUpdated of 10 accounts) equal on the instance that ran Reset, on every node that resumed an interrupted reset, on the restarted node, after a second reset; (2) raw database equal except MPT nodes; (3) the resetting instance continues WITHOUT restart (flush per block / no flush), observations equal after every block, reopened database equal to a never-reset node's; (4) second Reset(h) of the continued chain; family reset-xfer: account 2's NEP-17 log cut at 127/128/129/130 entries (batch size 128)"
 	cov["plan_variants"] = kinds.Len() // distinct (plan kind, headers ahead, pruning) combinations run
 	for k, v := range map[string]any{
 		"evaluations":         int(crashes.Get()),
@@ -763,7 +833,7 @@ func TestCheck(t *testing.T) {
 		"rule":                "a case = (scenario kind, family, block history, flush schedule | reset target + race order); for each case EVERY prefix of the recorded batch log is recovered with a new Blockchain and compared with the reference replica, then fed the remaining blocks; evaluations = crash points recovered; distinct_nontrivial = distinct cases (each has >= 2 batches)",
 		"runs":                int(runs.Get()),
 		"commit_invariant":    "every batch of every persist / epoch / latest / gc / pages / gcrun log and of the pre-reset history: SYSCurrentBlock=N in a batch <=> local state root of N (record + height marker) in the same batch",
-		"block_alphabet":      names,
+		"block_alphabet":      append(append([]string{}, names...), xferNames...),
 		"history_depth":       depth,
 		"scenarios":           "gcrun (pruning node driven like Blockchain.Run: persist + tryRunGC every k blocks, GarbageCollectionPeriod x MaxTraceableBlocks x cadence, long histories over several header-hash pages, every batch prefix a crash point, recovered node continues with the same cadence, is killed again, fed the rest and restarted gracefully; audit = state + everything traceable + transfer log), epoch (multi family: committee-changing block + 7 empty blocks across the epoch boundary, single flush at each boundary), persist (flush schedules at block boundaries AND inside AddBlock after its header part, hook H5), gc (RemoveUntraceableBlocks, GC after every flush), reset (every target height, both orders of the persister/direct-deletion race)",
 	} {
@@ -773,6 +843,7 @@ func TestCheck(t *testing.T) {
 		"one PutChangeSet / one SeekGC pass is atomic and durable (backend trusted, as the property states)",
 		"batches of the reset's background persister may merge differently from run to run (coarser merges only remove crash points); the order of the last stage batch and the direct deletion is forced both ways",
 		"state-sync jump crash points are explored in C20's state-sync part",
+		"reset vs synchronised-only reference: MPT nodes are excluded from the raw database comparison (stateroot.ResetState documents that the trie nodes are left as they are; without reference counting they must be a superset of the reference's), contract storage is compared modulo the storage-prefix swap (version record likewise), TokenTransferInfo decoded (Go map order)",
 		"gcrun: a RemoveUntraceableBlocks node must keep what docs/node-configuration.md promises: the last MaxTraceableBlocks blocks / transactions / execution results / state tries and their transfer log entries; older data may or may not be there",
 	})
 }
@@ -823,7 +894,7 @@ func replay(r *vk.Run) {
 		}
 	}
 	for i := 0; i < 5; i++ {
-		sc, err := chainx.NewScenario(fam, c.Pad, chainx.TplByName(c.History...))
+		sc, err := chainx.NewScenario(fam, c.Pad, tplsByName(c.History...))
 		if err != nil {
 			fmt.Println("replay: preamble:", err)
 			os.Exit(3)
@@ -848,7 +919,7 @@ func replay(r *vk.Run) {
 			}
 		}
 		var rec *caseRec
-		if c.Scenario == "reset" || c.Scenario == "reset-prune" {
+		if c.Scenario == "reset" || c.Scenario == "reset-prune" || c.Scenario == "reset-noop" {
 			_, rec = e.runReset(h, c.ResetTo, c.GCFirst)
 		} else {
 			_, rec = e.runPersist(h, c.Flush, c.Scenario, c.InBlock)
